@@ -3,8 +3,10 @@ package queryb
 import (
 	"encoding/json"
 	"fmt"
+	"os"
 	"runtime"
 	"strings"
+	"sync"
 	"testing"
 
 	"verif/harness/behav"
@@ -19,6 +21,12 @@ type Case struct {
 	Seed    int64           `json:"seed"`
 	Idx     int             `json:"idx"`
 	Variant string          `json:"variant,omitempty"`
+	// Index is the index name: shard placement in a cluster is a hash of (index, shard), so a
+	// replay must use the same name to reach the same placement.
+	Index string `json:"index"`
+	// More are further read-only behaviours with the same initial dataset, replayed in the
+	// same index (never part of a replay file: a failing one becomes Beh).
+	More []behav.Behaviour `json:"-"`
 	// CorruptStep >= 0 flips one expected value (binding self-test).
 	CorruptStep int `json:"corrupt_step,omitempty"`
 }
@@ -63,13 +71,29 @@ func fail(res *behav.Result, c *Case, mm *mismatch) {
 // Drive is the common test body: replay mode, or all behaviours of $VERIF_BEH in parallel
 // on a pool of servers. variants lists the variants every behaviour is replayed under
 // (nil: one unnamed variant).
-func Drive(t *testing.T, prop string, run runner, variants func(i int) []string) {
+func Drive(t *testing.T, prop string, run runner, variants func(i int) []string, groupKey func(b behav.Behaviour) string) {
 	res := behav.NewResult()
 	defer func() {
 		if err := res.Write(); err != nil {
 			t.Fatal(err)
 		}
 	}()
+	// requests that never return: record the case as a failure, write the result, leave
+	var running sync.Map // index name -> *Case
+	var hangOnce sync.Once
+	HangHook = func(index, pql string) {
+		hangOnce.Do(func() {
+			if v, ok := running.Load(index); ok {
+				c := v.(*Case)
+				fail(res, c, &mismatch{Step: -1, Op: "?", Kind: callName(pql), Symptom: "hang",
+					Text: fmt.Sprintf("request did not return within %v: %s", hangAfter, pql)})
+			} else {
+				res.SetInconclusive("a request did not return: " + pql)
+			}
+			res.Write()
+			os.Exit(3)
+		})
+	}
 	if raw, ok := behav.LoadReplay(); ok {
 		var c Case
 		if err := json.Unmarshal(raw, &c); err != nil {
@@ -80,6 +104,7 @@ func Drive(t *testing.T, prop string, run runner, variants func(i int) []string)
 		defer pool.Close()
 		nd := pool.Get(c.Prof.Nodes)
 		res.Evaluations = 1
+		running.Store(c.Index, &c)
 		mm, _ := runProtected(run, nd, &c, res)
 		if mm != nil {
 			fail(res, &c, mm)
@@ -104,18 +129,28 @@ func Drive(t *testing.T, prop string, run runner, variants func(i int) []string)
 	type job struct {
 		bi      int
 		variant string
+		more    []int
 	}
 	var jobs []job
+	groups := map[string]int{} // group key -> index of the open job
 	for bi := range behs {
 		vs := []string{""}
 		if variants != nil {
 			vs = variants(bi)
 		}
+		if groupKey != nil {
+			if k := groupKey(behs[bi]); k != "" {
+				if ji, ok := groups[k]; ok && len(jobs[ji].more) < 150 {
+					jobs[ji].more = append(jobs[ji].more, bi)
+					continue
+				}
+				groups[k] = len(jobs)
+			}
+		}
 		for _, v := range vs {
-			jobs = append(jobs, job{bi, v})
+			jobs = append(jobs, job{bi: bi, variant: v})
 		}
 	}
-	var distinct behav.Distinct
 	workers := nOne + nThree
 	t.Setenv("VERIF_WORKERS", fmt.Sprint(workers))
 	behav.Parallel(len(jobs), func(i int) {
@@ -126,18 +161,24 @@ func Drive(t *testing.T, prop string, run runner, variants func(i int) []string)
 		}
 		c := &Case{Prop: prop, Beh: behs[j.bi], Dim: d, Seed: seed, Idx: j.bi, Variant: j.variant, CorruptStep: -1}
 		c.Prof = MakeProfile(d, seed, j.bi, nodes)
+		c.Index = fmt.Sprintf("b%ds%dv%d", j.bi, seed, behav.Hash64(j.variant)%1000)
+		for _, mi := range j.more {
+			c.More = append(c.More, behs[mi])
+		}
 		if corrupt && j.bi%7 == 3 {
 			c.CorruptStep = len(c.Beh) / 2
 		}
 		nd := pool.Get(nodes)
+		running.Store(c.Index, c)
 		mm, broken := runProtected(run, nd, c, res)
+		running.Delete(c.Index)
 		if broken {
 			pool.Replace(t, nd)
 		} else {
 			pool.Put(nd)
 		}
-		res.CountEval()
-		if distinct.Add(fmt.Sprintf("%d|%s", j.bi, j.variant)) {
+		for k := 0; k <= len(j.more); k++ {
+			res.CountEval()
 			res.CountNontrivial()
 		}
 		if i%(len(jobs)/5+1) == 0 {
@@ -156,4 +197,12 @@ func newPoolFor(t testing.TB, nodes int) *Pool {
 		return NewPool(t, 0, 1)
 	}
 	return NewPool(t, 1, 0)
+}
+
+// callName returns the name of the first call of a PQL string.
+func callName(pql string) string {
+	if i := strings.Index(pql, "("); i > 0 {
+		return pql[:i]
+	}
+	return pql
 }
